@@ -18,7 +18,7 @@ import os
 import collections
 
 from common import (Outcome, ToolError, cfg, log, run_harness, run_tlc, sample, seed, tla_edges, tla_set,
-                    validate_trace, workdir)
+                    validate_trace, workdir, tour)
 
 INVS = ["TypeOK", "NoLossNoResurrection", "ReportedEqualsExpected", "PendingBytesExact", "SeqIsLastAssigned"]
 PROPS = ["RejectedAppendUnchanged", "AppendGetsNextSeq", "RefinesWalAbs"]
@@ -28,79 +28,6 @@ def mc_cfg(R, maxseq, defects=(), dump=False):
     return cfg({"R": R, "H": 3, "Lens": tla_set(range(0, R - 1)), "MaxSeq": maxseq, "Defects": tla_set(defects)},
                invariants=INVS, properties=PROPS, constraint="SeqBound", view="View",
                action_constraint="EdgeDump" if dump else None)
-
-
-def tour(edges, maxlen=40):
-    """Transition tour: a set of paths from the initial state covering every edge."""
-    out = collections.defaultdict(list)
-    init = None
-    for e in edges:
-        out[e["s"]].append(e)
-    # the initial state is the only source that is never a target of a non-self edge at depth 0:
-    targets = set(e["t"] for e in edges)
-    cands = [s for s in out if s not in targets]
-    if cands:
-        init = cands[0]
-    else:
-        # initial state can be re-entered; it is the source of the first printed edge
-        init = edges[0]["s"]
-    # dedupe edges by (s, op, arg)
-    uniq = {}
-    for e in edges:
-        uniq[(e["s"], e["op"], e["arg"])] = e
-    out = collections.defaultdict(list)
-    for e in uniq.values():
-        out[e["s"]].append(e)
-    uncovered = set(uniq.keys())
-    paths = []
-    while uncovered:
-        path = []
-        cur = init
-        progressed = False
-        while len(path) < maxlen:
-            nxt = [e for e in out[cur] if (e["s"], e["op"], e["arg"]) in uncovered]
-            if nxt:
-                e = nxt[0]
-            else:
-                # BFS to the nearest state with an uncovered out-edge
-                prev = {cur: None}
-                q = collections.deque([cur])
-                found = None
-                while q:
-                    s = q.popleft()
-                    if any((x["s"], x["op"], x["arg"]) in uncovered for x in out[s]) and s != cur:
-                        found = s
-                        break
-                    for x in out[s]:
-                        if x["t"] not in prev:
-                            prev[x["t"]] = (s, x)
-                            q.append(x["t"])
-                if found is None:
-                    break
-                chain = []
-                s = found
-                while prev[s] is not None:
-                    ps, x = prev[s]
-                    chain.append(x)
-                    s = ps
-                chain.reverse()
-                if len(path) + len(chain) >= maxlen:
-                    break
-                path.extend(chain)
-                cur = found
-                continue
-            path.append(e)
-            uncovered.discard((e["s"], e["op"], e["arg"]))
-            progressed = True
-            cur = e["t"]
-        if not progressed:
-            # unreachable within maxlen from init along this greedy walk: lengthen
-            maxlen *= 2
-            if maxlen > 4000:
-                break
-            continue
-        paths.append(path)
-    return paths, len(uniq)
 
 
 def run(tier, out: Outcome):
